@@ -305,5 +305,5 @@ def r07_9(ctx):
                 r = bad[0][1]
                 ctx.fail(R, key, bad[0][2], 'the shift amount `%s` is only known to lie in [%s, %s] here: a negative or too large amount panics with "attempt to shift with overflow" when overflow checks are on (and is masked to 5 bits otherwise, giving a wrong coefficient)'
                          % (key.split('|')[-1], '-inf' if r[0] is None else r[0], '+inf' if r[1] is None else r[1]))
-    ctx.floor(R, 'shift operations examined', n, 40)
-    ctx.floor(R, 'shifts by a variable amount', nvar, 10)
+    ctx.floor(R, 'shift operations examined', n, 30)
+    ctx.floor(R, 'shifts by a variable amount', nvar, 8)
